@@ -18,6 +18,25 @@ fn arg_val(args: &[String], key: &str) -> Option<String> {
     args.iter().position(|a| a == key).and_then(|i| args.get(i + 1).cloned())
 }
 
+struct Sink;
+static SINK: Sink = Sink;
+impl log::Log for Sink {
+    fn enabled(&self, _: &log::Metadata) -> bool {
+        true
+    }
+    fn log(&self, record: &log::Record) {
+        use std::fmt::Write;
+        let mut s = String::new();
+        let _ = write!(s, "{}", record.args());
+        std::hint::black_box(&s);
+    }
+    fn flush(&self) {}
+}
+
+pub fn set_log(on: bool) {
+    log::set_max_level(if on { log::LevelFilter::Trace } else { log::LevelFilter::Off });
+}
+
 fn main() {
     let args: Vec<String> = std::env::args().collect();
     if args.len() < 2 {
@@ -30,6 +49,10 @@ fn main() {
             eprintln!("{}", i);
         }
     }));
+    // a logger that takes everything and formats it (so that the arguments of every log statement of the library are
+    // evaluated); the level is switched per scenario / history (`log` field): off unless asked for
+    log::set_logger(&SINK).ok();
+    log::set_max_level(log::LevelFilter::Off);
     match args[1].as_str() {
         "fs" => {
             // vh fs <scenarios.json> <out.ndjson> [--crash permille] [--remount] [--seed n] [--skip k] [--append]
